@@ -448,8 +448,14 @@ func TestC16(t *testing.T) {
 			}
 			a.StructNameFromTitle, b.StructNameFromTitle = false, true
 		case "schema-root-type":
-			a.Mappings = nil
+			// both runs map the id to the same package and output; only the root type differs
+			a.Mappings = []gen.Mapping{{ID: f.ID, Package: base.DefaultPackage, Output: "-"}}
 			b.Mappings = []gen.Mapping{{ID: f.ID, Package: base.DefaultPackage, Output: "-", RootType: "CustomRoot"}}
+			if rapid.IntRange(0, 3).Draw(rt, "typelessroot") == 0 {
+				// a root that states properties but no type keyword
+				f.Root.NoType = true
+				c.Count("shape.typeless_root")
+			}
 		case "extra-imports":
 			a.ExtraImports, b.ExtraImports = false, true
 			a.OnlyModels, b.OnlyModels = false, false
